@@ -17,6 +17,8 @@ import Gotlcp.Lemmas.Parsers
 import Gotlcp.Lemmas.ParsersLoop
 import Gotlcp.Lemmas.ParsersLoopD
 import Gotlcp.Model.ParsersFacts
+import Gotlcp.Tie.UnmarshalTlcp
+import Gotlcp.Tie.UnmarshalDtlcp
 
 namespace Gotlcp.Props.C09
 open Gotlcp Gotlcp.Model.Parsers Gotlcp.Lemmas.Parsers
@@ -401,5 +403,141 @@ example : (dispatch limitsD libNone { sTrail with complete := true, raw := [] } 
 example : DecLen libNone := by intro r d h; cases h
 
 end Datagram
+
+/-! ### translated DTLCP decoders
+
+The definitions `Gotlcp.Src.dtlcp.*` are regenerated from dtlcp/handshake_messages.go by
+`harness/cmd/go2lean` on every run; `.error` in them is a Go run-time panic (index / slice out
+of range, negative `make`) or an exhausted bound of a `for cond {}` loop.  Proofs:
+`Gotlcp.Tie.UnmarshalDtlcp`.  No hypothesis on `len(data)` is needed: `dtlcpIsCompleteMessage`
+bounds it by `2^24 + 12` before any `uint32(len(…))` conversion. -/
+
+/-- every function the translator was asked for was translated -/
+theorem C09_src_translated : Src.untranslated = [] := by decide
+
+/-- `dtlcpIsCompleteMessage`: no byte string, no type code makes it panic -/
+theorem C09_src_no_panic_dtlcpIsCompleteMessage_dtlcp (data : List (BitVec 8)) (t : BitVec 8) :
+    ∃ r, Src.dtlcp.dtlcpIsCompleteMessage data t = .ok r :=
+  Tie.UnmarshalDtlcp.isComplete_ok data t
+
+/-- `dtlcpWriteHeader` (writes `dst[0..11]`; its callers allocate `dst`): returns normally
+exactly when `len(dst) ≥ 12`, panics for every shorter destination -/
+theorem C09_src_no_panic_dtlcpWriteHeader_dtlcp (dst : List (BitVec 8)) (msgType : BitVec 8) (bodyLen : Int)
+    (msgSeq : BitVec 16) (fragOff fragLen : BitVec 32) :
+    ((∃ r, Src.dtlcp.dtlcpWriteHeader dst msgType bodyLen msgSeq fragOff fragLen = .ok r) ↔ 12 ≤ dst.length) ∧
+    (dst.length < 12 → ∃ e, Src.dtlcp.dtlcpWriteHeader dst msgType bodyLen msgSeq fragOff fragLen = .error e) :=
+  ⟨Tie.UnmarshalDtlcp.writeHeader_ok_iff dst msgType bodyLen msgSeq fragOff fragLen,
+   Tie.UnmarshalDtlcp.writeHeader_panics dst msgType bodyLen msgSeq fragOff fragLen⟩
+
+/-- `certificateMsg.unmarshal`: the second loop indexes `d[0..2]` and slices `d[3:3+certLen]`
+without checks; it is safe because the first loop validated the same walk, and the `uint32`
+subtraction `certsLen -= 3 + certLen` never wraps because `len(d) = certsLen` is invariant -/
+theorem C09_src_no_panic_certificateMsg_unmarshal_dtlcp (m : Src.dtlcp.certificateMsg) (data : List (BitVec 8)) :
+    ∃ r, Src.dtlcp.certificateMsg.unmarshal m data = .ok r :=
+  Tie.UnmarshalDtlcp.cert_ok m data
+
+/-- `certificateRequestMsg.unmarshal`: no panic, and the `for len(cas) > 0` loop ends within
+`len(data) + 1` iterations -/
+theorem C09_src_no_panic_certificateRequestMsg_unmarshal_dtlcp (m : Src.dtlcp.certificateRequestMsg)
+    (data : List (BitVec 8)) : ∃ r, Src.dtlcp.certificateRequestMsg.unmarshal m data = .ok r :=
+  Tie.UnmarshalDtlcp.creq_ok m data
+
+theorem C09_src_no_panic_serverKeyExchangeMsg_unmarshal_dtlcp (m : Src.dtlcp.serverKeyExchangeMsg)
+    (data : List (BitVec 8)) : ∃ r, Src.dtlcp.serverKeyExchangeMsg.unmarshal m data = .ok r :=
+  Tie.UnmarshalDtlcp.skx_ok m data
+
+theorem C09_src_no_panic_clientKeyExchangeMsg_unmarshal_dtlcp (m : Src.dtlcp.clientKeyExchangeMsg)
+    (data : List (BitVec 8)) : ∃ r, Src.dtlcp.clientKeyExchangeMsg.unmarshal m data = .ok r :=
+  Tie.UnmarshalDtlcp.ckx_ok m data
+
+theorem C09_src_no_panic_serverHelloDoneMsg_unmarshal_dtlcp (m : Src.dtlcp.serverHelloDoneMsg)
+    (data : List (BitVec 8)) : ∃ r, Src.dtlcp.serverHelloDoneMsg.unmarshal m data = .ok r :=
+  Tie.UnmarshalDtlcp.shd_ok m data
+
+/-- non-vacuity: a Certificate message (message_seq 1) carrying the two entries `aa bb` and `cc` -/
+def dtlcpTwoCerts : List (BitVec 8) :=
+  [11, 0, 0, 12, 0, 1, 0, 0, 0, 0, 0, 12, 0, 0, 9, 0, 0, 2, 0xAA, 0xBB, 0, 0, 1, 0xCC]
+
+example : Src.dtlcp.certificateMsg.unmarshal {} dtlcpTwoCerts =
+    .ok ({ raw := dtlcpTwoCerts, certificates := [[0xAA, 0xBB], [0xCC]], messageSeq := 1#16,
+           fragmentOffset := 0#32, fragmentLength := 12#32 }, true) := by rfl
+-- one byte short: refused by the complete-message guard, receiver untouched
+example : Src.dtlcp.certificateMsg.unmarshal {} (dtlcpTwoCerts.take 23) = .ok ({}, false) := by rfl
+-- a 3-byte entry header at the very end (`len(d) < 4`): refused by the first loop
+example : (Src.dtlcp.certificateMsg.unmarshal {}
+    [11, 0, 0, 6, 0, 1, 0, 0, 0, 0, 0, 6, 0, 0, 3, 0, 0, 0]).map (·.2) = .ok false := by rfl
+-- `dtlcpWriteHeader` on an 11-byte destination panics
+example : Src.dtlcp.dtlcpWriteHeader (List.replicate 11 0#8) 1#8 0 0#16 0#32 0#32 = .error "index out of range" := by rfl
+
+/-! ### end of translated DTLCP decoders -/
+
+/-! ### (a) no panic: the TRANSLATED source text of the hand-written tlcp decoders
+
+`Gotlcp.Src.tlcp.*` is regenerated from tlcp/handshake_messages.go by `harness/cmd/go2lean` on
+every run (statement by statement; `a[i]`, `a[lo:hi]`, `make`, `copy` are checked helpers that
+return `.error` exactly where the Go runtime panics; a `for cond {}` loop has `len(data)+1`
+iterations of fuel and `.error "loop fuel exhausted"` after them).  `Gotlcp.Tie.UnmarshalTlcp`
+proves by loop invariants that, for every receiver value and EVERY byte string (no bound on its
+length is needed), each function returns `.ok _`. -/
+
+section SrcTlcp
+open Gotlcp.Tie.UnmarshalTlcp
+
+-- (`C09_src_translated : Src.untranslated = []` is stated once, above, for both packages)
+
+/-- `tlcpIsCompleteMessage`: never panics, and returns exactly "4-byte header of the given type whose
+24-bit length is the number of bytes that follow" -/
+theorem C09_src_no_panic_tlcpIsCompleteMessage_tlcp (data : List (BitVec 8)) (msgType : BitVec 8) :
+    (∃ r, Src.tlcp.tlcpIsCompleteMessage data msgType = .ok r) ∧
+    Src.tlcp.tlcpIsCompleteMessage data msgType = .ok (complete data msgType) :=
+  ⟨no_panic_tlcpIsCompleteMessage data msgType, tie_isComplete data msgType⟩
+
+/-- `certificateMsg.unmarshal`: the counting pass keeps `certsLen = len(d)` (no `uint32` wrap-around)
+and stays within its fuel; the second pass, which indexes and slices WITHOUT checks, only revisits
+what the first pass validated -/
+theorem C09_src_no_panic_certificateMsg_unmarshal_tlcp (m : Src.tlcp.certificateMsg) (data : List (BitVec 8)) :
+    ∃ r, Src.tlcp.certificateMsg.unmarshal m data = .ok r :=
+  no_panic_certificateMsg_unmarshal m data
+
+/-- `certificateRequestMsg.unmarshal` -/
+theorem C09_src_no_panic_certificateRequestMsg_unmarshal_tlcp (m : Src.tlcp.certificateRequestMsg)
+    (data : List (BitVec 8)) : ∃ r, Src.tlcp.certificateRequestMsg.unmarshal m data = .ok r :=
+  no_panic_certificateRequestMsg_unmarshal m data
+
+/-- `serverKeyExchangeMsg.unmarshal` -/
+theorem C09_src_no_panic_serverKeyExchangeMsg_unmarshal_tlcp (m : Src.tlcp.serverKeyExchangeMsg)
+    (data : List (BitVec 8)) : ∃ r, Src.tlcp.serverKeyExchangeMsg.unmarshal m data = .ok r :=
+  no_panic_serverKeyExchangeMsg_unmarshal m data
+
+/-- `clientKeyExchangeMsg.unmarshal` -/
+theorem C09_src_no_panic_clientKeyExchangeMsg_unmarshal_tlcp (m : Src.tlcp.clientKeyExchangeMsg)
+    (data : List (BitVec 8)) : ∃ r, Src.tlcp.clientKeyExchangeMsg.unmarshal m data = .ok r :=
+  no_panic_clientKeyExchangeMsg_unmarshal m data
+
+/-- `serverHelloDoneMsg.unmarshal` -/
+theorem C09_src_no_panic_serverHelloDoneMsg_unmarshal_tlcp (m : Src.tlcp.serverHelloDoneMsg)
+    (data : List (BitVec 8)) : ∃ r, Src.tlcp.serverHelloDoneMsg.unmarshal m data = .ok r :=
+  no_panic_serverHelloDoneMsg_unmarshal m data
+
+-- non-vacuity: the translated certificate decoder on a concrete message with two entries
+-- (2 bytes and 1 byte) returns both certificates and `true` …
+example :
+    isOk (Src.tlcp.certificateMsg.unmarshal {} [11, 0, 0, 12, 0, 0, 9, 0, 0, 2, 0xaa, 0xbb, 0, 0, 1, 0xcc])
+      ({ raw := [11, 0, 0, 12, 0, 0, 9, 0, 0, 2, 0xaa, 0xbb, 0, 0, 1, 0xcc],
+         certificates := [[0xaa, 0xbb], [0xcc]] }, true) = true := by
+  decide
+-- … and refuses (returns `false`, does not panic) when the second entry claims one byte too many
+example :
+    isOk (Src.tlcp.certificateMsg.unmarshal {} [11, 0, 0, 12, 0, 0, 9, 0, 0, 2, 0xaa, 0xbb, 0, 0, 2, 0xcc])
+      ({ raw := [11, 0, 0, 12, 0, 0, 9, 0, 0, 2, 0xaa, 0xbb, 0, 0, 2, 0xcc], certificates := [] }, false) = true := by
+  decide
+-- a CertificateRequest with two certificate types and one 1-byte CA name
+example :
+    isOk (Src.tlcp.certificateRequestMsg.unmarshal {} [13, 0, 0, 8, 2, 1, 64, 0, 3, 0, 1, 0x55])
+      ({ raw := [13, 0, 0, 8, 2, 1, 64, 0, 3, 0, 1, 0x55], certificateTypes := [1, 64],
+         certificateAuthorities := [[0x55]] }, true) = true := by
+  decide
+
+end SrcTlcp
 
 end Gotlcp.Props.C09
